@@ -6,22 +6,29 @@ ROOT = os.path.dirname(os.path.dirname(os.path.abspath(__file__)))
 
 TECH = "Lean 4 model + machine-checked theorems; differential correspondence (Go harness vs compiled Lean driver); property predicate on the implementation"
 
-# property id -> (engine, level text, level note, design ref, technique override)
-CLAIMED = {
-    "C20": ("h_c20 + drv_c20",
-            "Lean theorems about the model of CompactToBig/BigToCompact/CalcWork (work antitone in the target; "
-            "re-compaction canonical; round trip keeps the mantissa precision) for all inputs; the model is tied to "
-            "common/difficulty by a byte-exact differential run over every exponent x sign x mantissa edges, random "
-            "compacts and integers of byte length 0..300.",
-            "math/big behaves as Lean Int; bit operations modelled as div/mod; integers of >= 255 bytes are outside the "
-            "8-bit exponent field (documented limit, targets are <= 2^256).",
-            "DESIGN.md 4 C20", None),
-}
+import importlib
+import sys
+sys.path.insert(0, ROOT)
+
+
+def claimed():
+    """property id -> SPEC for every vf/props/cXX.py whose SPEC.claimed is true."""
+    out = {}
+    d = os.path.join(ROOT, "vf", "props")
+    for f in sorted(os.listdir(d)):
+        if f.startswith("c") and f.endswith(".py"):
+            m = importlib.import_module("vf.props." + f[:-3])
+            sp = m.SPEC
+            if getattr(sp, "claimed", True):
+                out[sp.prop] = sp
+    return out
+
 
 PENDING_REASON = "not claimed yet: model/theorems/tie for this property are not built in the current state of /verif (planned in DESIGN.md section 4)"
 
 
 def main():
+    CLAIMED = claimed()
     props = [json.loads(l) for l in open(os.path.join(ROOT, "properties.jsonl"))]
     hooks_file = os.path.join(ROOT, "hooks.json")
     hook_commits = json.load(open(hooks_file)) if os.path.exists(hooks_file) else []
@@ -33,7 +40,9 @@ def main():
     for p in props:
         i = p["id"]
         if i in CLAIMED:
-            eng, text, note, ref, tech = CLAIMED[i]
+            sp = CLAIMED[i]
+            eng = "%s + %s" % (sp.harness, sp.drv) if sp.drv else str(sp.harness)
+            text, note, ref, tech = sp.level_text, sp.level_note, sp.design_ref or ("DESIGN.md section 4 " + i), sp.technique
             checks.append({
                 "property_id": i,
                 "quick_cmd": "./check %s --tier quick" % i,
